@@ -123,3 +123,29 @@ Proof. intros H. cbn [sem data_val]. now rewrite H. Qed.
 Theorem test_receives_the_tested_value dtype t v : t_id t <> 0 ->
   exists rest, sem_test dtype t v = RC [] (fun p => mk_call p (t_id t) CbTest (Some v)) :: rest.
 Proof. intros H. unfold sem_test, rcall. destruct (Nat.eqb_spec (t_id t) 0); [contradiction|]. eexists; reflexivity. Qed.
+
+(** ** CustomFunc and Preprocess as the execution root (their typed Parse / Validate): the function is
+    called once, with the value the type assertion yields (Parse) or the value that is there (Validate);
+    a false verdict is one issue of type custom at the root; the destination is that value *)
+Theorem custom_root_parse conv t v x d e0 : conv v = Some x ->
+  sem Parse (SCustom conv t) (DVal v) d e0
+  = ((rcall (t_id t) CbCustom (Some x) ++ (if t_ok t x then [] else [RI [] (fun q => mk_test_issue q "custom" t)]))%list, x).
+Proof. intros E. cbn [sem data_val]. rewrite E. reflexivity. Qed.
+
+Theorem custom_root_wrong_type conv t v d e0 : conv v = None ->
+  sem Parse (SCustom conv t) (DVal v) d e0 = ([RI [] (fun q => mk_coerce_issue q "custom")], d).
+Proof. intros E. cbn [sem data_val]. rewrite E. reflexivity. Qed.
+
+Theorem custom_root_validate conv t dat d e0 :
+  sem Validate (SCustom conv t) dat d e0
+  = ((rcall (t_id t) CbCustom (Some d) ++ (if t_ok t d then [] else [RI [] (fun q => mk_test_issue q "custom" t)]))%list, d).
+Proof. reflexivity. Qed.
+
+(** ... and through the engine, as an execution of its own *)
+Corollary custom_root_engine conv t v x d : conv v = Some x ->
+  o_dest (run Parse (SCustom conv t) (DVal v) d) = x /\
+  (t_ok t x = true -> o_issues (run Parse (SCustom conv t) (DVal v) d) = []).
+Proof.
+  intros E. rewrite run_is_sem_run. unfold sem_run. rewrite (custom_root_parse conv t v x d false E).
+  split; [reflexivity|]. intros Hok. rewrite Hok. rewrite app_nil_r. cbn [o_issues]. unfold rcall. destruct (Nat.eqb (t_id t) 0); reflexivity.
+Qed.
